@@ -112,7 +112,7 @@ def evaluate(case):
                          "other data onto the same grid (it is a buffer of the object)")
             return fails
         # an option switched off by a comparison result (numpy.False_), by 0 or by None is switched off
-        for off in (np.bool_(False), 0, None):
+        for off in ((np.bool_(False), 0, None) if N <= 400 else (np.bool_(False),)):
             _, G_off, _ = tr.F_to_G(q, f, r, lorch=off)
             if not np.array_equal(np.asarray(G_off), G_snap, equal_nan=True):
                 fails.append(f"F_to_G(lorch={off!r}) on matched grids differs from the transform without the option: a falsy switch is treated as on")
